@@ -30,6 +30,7 @@ const maxVersion = ^uint64(0)
 // small alphabet with prefix pairs, 00 and ff
 var keyPool = [][]byte{{0x61}, {0x62}, {0x61, 0x62}, {0x62, 0x00}, {0x6d}, {0xff}}
 var prefixFreePool = [][]byte{{0x61}, {0x62}, {0x6d}, {0x63, 0x00}, {0xff}}
+var widePool = [][]byte{{0x61}, {0x63}, {0x64}, {0x65}, {0x66}, {0x6d}, {0x7a}}
 var verPool = []uint64{1, 2, 3, 5, 8, 13}
 
 type lsmEngine struct {
@@ -42,7 +43,7 @@ type lsmEngine struct {
 }
 
 func (e *lsmEngine) Rule() string {
-	return e.prop + ": random set/del/setv/delv/get/getv sequences over 6 keys x 3 column families x a 6-value version pool " +
+	return e.prop + ": random set/del/setv/delv/get/getv sequences over 2-7 keys (prefix pairs, 00, ff; 30% of the cases a wider 7-key alphabet for nested table ranges) x 3 column families x a 6-value version pool " +
 		"(values unique per write, ~12% above the value-log threshold) interleaved with rotate/flush/compact l0move|keep|drain/reopen " +
 		"on a real DB (skiplist or ART memtable per case); non-trivial = a read of a (cf,key,version<=requested) that was written in " +
 		"two or more different memtable epochs (a rotate or reopen between the writes) before the read"
@@ -83,6 +84,10 @@ func (e *lsmEngine) Gen(r *hlib.Rand, tier string) []string {
 	}
 	nkeys := 2 + r.Intn(len(pool)-1)
 	keys := pool[:nkeys]
+	if r.Chance(30) {
+		// wider, prefix-free alphabet: tables with nested / staggered key ranges in one ingest shard
+		keys = widePool
+	}
 	plainBias := 70
 	if e.prop == "C02" {
 		plainBias = 15
@@ -232,8 +237,9 @@ func (e *lsmEngine) execOnce(ops []string) (out []string, retErr error) {
 	}
 	defer os.RemoveAll(dir)
 	engine := "skiplist"
+	tableSz := int64(1 << 20)
 	open := func() *NoKV.DB {
-		opt := &NoKV.Options{WorkDir: dir, MemTableSize: 1 << 20, SSTableMaxSz: 1 << 20, ValueThreshold: 32,
+		opt := &NoKV.Options{WorkDir: dir, MemTableSize: 1 << 20, SSTableMaxSz: tableSz, ValueThreshold: 32,
 			ValueLogFileSize: 1 << 20, MaxBatchCount: 1000, MaxBatchSize: 1 << 20, NumCompactors: 1,
 			NumLevelZeroTables: 1000, IngestCompactBatchSize: 2, MemTableEngine: NoKV.MemTableEngine(engine)}
 		db := NoKV.Open(opt)
@@ -280,6 +286,18 @@ func (e *lsmEngine) execOnce(ops []string) (out []string, retErr error) {
 				engine = f[1]
 				e.engines[engine]++
 				out[i] = "ok"
+				return
+			}
+			if f[0] == "opts" {
+				// opts tablesz <bytes>: SSTableMaxSz, which Open also uses as the compaction's
+				// target file size (BaseTableSize); must precede the first DB op
+				if f[1] == "tablesz" && db == nil {
+					n, _ := strconv.ParseInt(f[2], 10, 64)
+					tableSz = n
+					out[i] = "ok"
+				} else {
+					out[i] = "badop"
+				}
 				return
 			}
 			if db == nil {
@@ -369,6 +387,11 @@ func (e *lsmEngine) execOnce(ops []string) (out []string, retErr error) {
 				}
 				after := l.VerifPlacement()
 				for fid, where := range before {
+					if _, still := after[fid]; !still && !strings.HasSuffix(where, "i") {
+						// a main table that an ingest-keep merge consumed: deleted in the manifest,
+						// listed in memory until the reopen (modelled as St.mainDead)
+						continue
+					}
 					if after[fid] != where {
 						retErr = fmt.Errorf("background compaction interfered during reopen (file %d: %s -> %q)", fid, where, after[fid])
 					}
